@@ -25,7 +25,15 @@ type Case struct {
 	C     [3]uint32 `json:"c"`
 	A     uint32    `json:"a"`
 	FBits uint32    `json:"fbits,omitempty"` // float32 alpha bit pattern for the encode side
+	// Lin: float32 bit patterns of the linear colour that is encoded together with that alpha (all zero: 0.2, 0.5, 0.9)
+	Lin [3]uint32 `json:"lin,omitempty"`
 }
+
+// encodeColours are the finite linear colours the encode-side alpha cases rotate through: inside the gamut, on its
+// faces, and outside it in each channel and direction (what ColorFromXYZ yields for a colour of a wider space)
+var encodeColours = [][3]float32{{0.2, 0.5, 0.9}, {0, 0, 0}, {1, 1, 1}, {-0.1, 0.5, 0.9}, {0.2, -0.05, 0.9}, {0.2, 0.5, -0.3}, {1.2, 0.5, 0.9}, {0.2, 1.5, 0.9}, {0.2, 0.5, 7},
+	{-0.2, -0.4, -0.1}, {1.1, 1.2, 1.3}, {1.09, -0.21, 1.04}, {-1e-6, 0.3, 0.3}, {0.3, -1e-6, 0.3}, {0.3, 0.3, -1e-6}, {1e-30, 1e-30, 1e-30}, {-1e-40, -1e-40, -1e-40},
+	{3e38, 0.5, 0.5}, {0.5, -3e38, 0.5}, {0.5, 0.5, 3e38}, {0.0031308, 0.0031309, 0.0031307}, {1, 0, 1}, {0, 1, 0}, {-0.5, 2, -0.5}}
 
 func space(name string) *sp.API {
 	for i := range sp.Spaces {
@@ -140,6 +148,9 @@ func checkInner(c Case) (kind, what string) {
 	case "encode-alpha":
 		f := math.Float32frombits(c.FBits)
 		rgb := linear.RGB{R: 0.2, G: 0.5, B: 0.9}
+		if c.Lin != [3]uint32{} {
+			rgb = linear.RGB{R: math.Float32frombits(c.Lin[0]), G: math.Float32frombits(c.Lin[1]), B: math.Float32frombits(c.Lin[2])}
+		}
 		n, r, r64 := s.ToNRGBA(rgb, f), s.ToRGBA(rgb, f), s.ToRGBA64(rgb, f)
 		l64 := rgb.ToLinearRGBA64(f)
 		if f != f {
@@ -221,7 +232,7 @@ func TestC14(t *testing.T) {
 		}
 		// image-level cases are replayed by re-running the (cheap, exhaustive) enumeration below
 	}
-	ev.Rule("enumerations per space: all 256 8-bit alphas x 24 colours (decode exactness, 8-bit round trip, transparent pixels incl. invalid premultiplied values); all 65,536 16-bit alphas x 16 channel levels through RGBA64/NRGBA64/custom colour types (decode exactness, LineariseColor/EncodeColor alpha round trip, transparent -> zero); premultiplied validity: every alpha x 64 channel values <= alpha (quick) / every (channel <= alpha) pair (thorough); encode-side alpha for boundary floats (k+0.5)/max +-ulps and specials; opaque constructor agreement for all codes. non-trivial = distinct case with 0 < channel <= alpha < max (non-opaque, non-zero)")
+	ev.Rule("enumerations per space: all 256 8-bit alphas x 24 colours (decode exactness, 8-bit round trip, transparent pixels incl. invalid premultiplied values); all 65,536 16-bit alphas x 16 channel levels through RGBA64/NRGBA64/custom colour types (decode exactness, LineariseColor/EncodeColor alpha round trip, transparent -> zero); premultiplied validity: every alpha x 64 channel values <= alpha (quick) / every (channel <= alpha) pair (thorough); encode-side alpha for boundary floats (k+0.5)/max +-ulps and specials, each with one of 24 finite linear colours inside, on and outside the gamut (negative, above one, tiny and huge channels), and every one of those colours with five alphas; opaque constructor agreement for all codes. non-trivial = distinct case with 0 < channel <= alpha < max (non-opaque, non-zero)")
 	ev.Assume("for the non-premultiplied 8-bit constructor a transparent pixel is required to give alpha 0 and either the zero colour (this property's words) or the per-channel decode (what C04 requires and checks)")
 	rec := &recorder{bad: map[string]bool{}}
 	var nt, evals int64
@@ -305,11 +316,20 @@ func TestC14(t *testing.T) {
 			if b > 0x7F800000 && b < 0x80000000 && b != 0x7FC00000 {
 				continue
 			}
-			rec.run(Case{Check: "encode-alpha", Space: sp.Spaces[si].Name, FBits: b})
+			ec := encodeColours[int(evals%int64(len(encodeColours)))]
+			rec.run(Case{Check: "encode-alpha", Space: sp.Spaces[si].Name, FBits: b, Lin: [3]uint32{math.Float32bits(ec[0]), math.Float32bits(ec[1]), math.Float32bits(ec[2])}})
 			evals++
+		}
+		// every colour of the table with a few alphas
+		for _, ec := range encodeColours {
+			for _, a := range []float32{1.0 / 65535, 0.25, 0.5, 254.0 / 255, 1} {
+				rec.run(Case{Check: "encode-alpha", Space: sp.Spaces[si].Name, FBits: math.Float32bits(a), Lin: [3]uint32{math.Float32bits(ec[0]), math.Float32bits(ec[1]), math.Float32bits(ec[2])}})
+				evals++
+			}
 		}
 	}
 	ev.Class("encode-alpha-floats", int64(len(fb)*4))
+	ev.Class("encode-alpha-colours", int64(len(encodeColours)))
 	// (5) premultiplied validity
 	if ev.Thorough() {
 		for si := range sp.Spaces {
